@@ -247,6 +247,17 @@ theorem table_scan_sorted (primary : List Nat) (lay : List RowSet) (cols : List 
     next s => exact hstreams s (by simp)
     next => exact (merge_heap_sorted (ascKeys primary) streams hstreams).1
 
+/-- ... in particular under a pushed key range (`WHERE k >= c ORDER BY k`: the planner drops the
+sort, the executor must still request the merging scan): the ordered-scan contract holds for range
+scans too. -/
+theorem table_scan_sorted_under_range (k : Nat) (lay : List RowSet) (cols : List Nat) (r : KeyRange) (rows : List Row)
+    (hcols : cols ≠ []) (hs : ∀ rs ∈ lay, SortedBy (keyCmp [⟨k, false⟩]) rs.rows)
+    (h : tableScan [k] lay cols (some r) = .ok rows) : SortedBy (keyCmp [⟨k, false⟩]) rows := by
+  have := table_scan_sorted [k] lay cols (some r) rows (by simp) hcols (by simpa [ascKeys] using hs) h
+  simpa [ascKeys] using this
+
+example : ∃ rows, tableScan [0] witnessLayout [0] (some ⟨.incl (.i32 2), .unb⟩) = .ok rows := ⟨_, rfl⟩
+
 /-- the former witness of the defect: both snapshot orders of `{1,2,9}`, `{5,6,7}` now scan sorted -/
 theorem two_rowsets_scan_sorted (rows : List Row) :
     (tableScan [0] witnessLayout [0] none = .ok rows ∨ tableScan [0] witnessLayout.reverse [0] none = .ok rows) →
